@@ -99,7 +99,94 @@ fn period_ms_ceil(p: Duration) -> u64 {
     ((ns + 999_999) / 1_000_000) as u64
 }
 
+/// Late polls on the virtual clock: the clock is moved forward by several periods in one step (`tokio::time::advance`),
+/// so the interval tasks are polled after their deadlines. The schedule must stay anchored on the creation time: ticks
+/// whose slot fell inside the jump arrive at its end, every later tick exactly on its slot `created + k * period`.
+async fn jump_body(seed: u64, trace: Arc<Trace>) -> (Vec<String>, Vec<(String, String)>, u64, bool) {
+    let mut p = Prng::new(seed ^ 0x6a);
+    let mut v: Vec<(String, String)> = vec![];
+    let t0 = Instant::now();
+    let now_ms = move || Instant::now().duration_since(t0).as_millis() as u64;
+    let (target, target_h) = Actor::spawn(Some(format!("c12-jt-{seed:x}")), Target { trace: trace.clone() }, ()).await.expect("target");
+    let ntimers = p.range(1, 3);
+    let fired: Arc<Mutex<Vec<Fired>>> = Arc::new(Mutex::new(vec![]));
+    let mut timers = vec![]; // (id, period_ms, created_ms, handle)
+    for id in 0..ntimers as u32 {
+        tokio::time::sleep(Duration::from_millis(p.below(5))).await;
+        let pm = *p.pick(&[1u64, 2, 7, 10, 1000]);
+        let c_ms = now_ms();
+        let (f2, ctr) = (fired.clone(), Arc::new(AtomicU64::new(0)));
+        let derived = p.chance(1, 3);
+        let fire = move || -> (u32, u64) {
+            let k = ctr.fetch_add(1, Ordering::SeqCst) + 1;
+            f2.lock().unwrap().push(Fired { timer: id, k, at_ms: Instant::now().duration_since(t0).as_millis() as u64 });
+            (id, k)
+        };
+        let h = if derived {
+            target.get_derived::<DTick>().send_interval(Duration::from_millis(pm), move || {
+                let (t, k) = fire();
+                DTick(t, k)
+            })
+        } else {
+            target.send_interval(Duration::from_millis(pm), move || {
+                let (timer, k) = fire();
+                TMsg::Tick { timer, k }
+            })
+        };
+        timers.push((id, pm, c_ms, h));
+    }
+    let unit = timers.iter().map(|t| t.1).max().unwrap_or(1);
+    let mut jumps = vec![];
+    for _ in 0..p.range(1, 3) {
+        tokio::time::sleep(Duration::from_millis(p.below(4 * unit) + 1)).await;
+        let j0 = now_ms();
+        let by = p.range(2, 9) * unit + p.below(unit);
+        tokio::time::advance(Duration::from_millis(by)).await;
+        let j1 = now_ms();
+        // let the burst of overdue ticks be produced
+        vt::settle().await;
+        jumps.push((j0, j1));
+    }
+    tokio::time::sleep(Duration::from_millis(6 * unit + 3)).await;
+    let t_end = now_ms();
+    for t in &timers {
+        t.3.abort();
+    }
+    target.stop(None);
+    let _ = target_h.await;
+    vt::quiesce(1).await;
+    let fired: Vec<Fired> = fired.lock().unwrap().clone();
+    let desc = vec![format!("clock jumps {jumps:?} (ms) over interval timers (id, period_ms, created_ms) {:?}", timers.iter().map(|t| (t.0, t.1, t.2)).collect::<Vec<_>>())];
+    for (id, pm, c_ms, _) in &timers {
+        let fs: Vec<&Fired> = fired.iter().filter(|f| f.timer == *id).collect();
+        for f in &fs {
+            let slot = c_ms + f.k * pm;
+            let in_jump = jumps.iter().find(|(a, b)| slot > *a && slot <= *b);
+            let want = in_jump.map(|j| j.1).unwrap_or(slot);
+            // a slot at the very instant the jump starts may be served before or after it
+            if let Some((_, b)) = jumps.iter().find(|(a, _)| slot == *a) {
+                if f.at_ms == slot || f.at_ms == *b {
+                    continue;
+                }
+            }
+            if f.at_ms < slot {
+                v.push(("early".into(), format!("interval timer {id} (period {pm}ms, created {c_ms}ms): tick {} at {}ms, before its slot {slot}ms", f.k, f.at_ms)));
+            } else if f.at_ms != want {
+                v.push(("interval-drift".into(), format!("interval timer {id} (period {pm}ms, created {c_ms}ms): tick {} at {}ms, expected {want}ms (slot {slot}ms; the clock jumped over {jumps:?})", f.k, f.at_ms)));
+            }
+        }
+        let want_n = (t_end - c_ms) / pm;
+        if (fs.len() as u64) + 1 < want_n {
+            v.push(("missing-tick".into(), format!("interval timer {id} (period {pm}ms, created {c_ms}ms) produced {} ticks by {t_end}ms, a timer that does not drift produces {want_n}", fs.len())));
+        }
+    }
+    (desc, v, fired.len() as u64, true)
+}
+
 async fn body(seed: u64, trace: Arc<Trace>) -> (Vec<String>, Vec<(String, String)>, u64, bool) {
+    if seed % 5 == 2 {
+        return jump_body(seed, trace).await;
+    }
     let mut p = Prng::new(seed);
     let mut v: Vec<(String, String)> = vec![];
     let t0 = Instant::now();
